@@ -248,27 +248,29 @@ impl ParsedFormula {
 
         let formula = SymbolicBDD::parse_formula(&mut tokens.iter().peekable())?;
 
-        let n = vars.len();
+        // raw2free is indexed by variable id (see to_free_index); ids need not be contiguous
+        // when a variable ordering lists names the formula does not use
+        let n = vars.iter().map(|v| v.id + 1).max().unwrap_or(0);
         let mut result = Self {
             vars,
             free_vars: Vec::new(),
-            raw2free: Vec::with_capacity(n),
+            raw2free: vec![None; n],
             bdd: formula,
             env,
             definitions: Default::default(),
         };
 
-        let mut vi = 0;
-        for v in &result.vars {
-            result.raw2free.push(if result.var_is_free(&result.bdd, v) {
-                result.free_vars.push(v.clone());
-                let v_result = vi;
-                vi += 1;
+        let is_free: Vec<bool> = result
+            .vars
+            .iter()
+            .map(|v| result.var_is_free(&result.bdd, v))
+            .collect();
 
-                Some(v_result)
-            } else {
-                None
-            });
+        for (v, free) in result.vars.iter().zip(is_free) {
+            if free {
+                result.raw2free[v.id] = Some(result.free_vars.len());
+                result.free_vars.push(v.clone());
+            }
         }
 
         Ok(result)
